@@ -11,7 +11,7 @@ for s in ${@:-$(ls $V/seeded | grep -v EXPECTED)}; do
   cd $WT && git checkout -q -- . && git clean -fdq -e Cargo.lock
   for h in $d/demo_*.diff; do [ -f "$h" ] && git apply "$h"; done
   if grep -q "ascent-byods-rels" $d/confirm.log 2>/dev/null && grep -q "pkg=ascent-byods-rels" $d/confirm.log; then PKG=ascent-byods-rels; DEMO=byods/ascent-byods-rels/examples/seed_demo.rs; else PKG=ascent; DEMO=ascent/examples/seed_demo.rs; fi
-  mkdir -p $(dirname $DEMO); cp $d/seed_demo.rs $DEMO
+  mkdir -p $(dirname $DEMO); sed "s#/tmp/wt[0-9]*_C[0-9]*#$WT#g" $d/seed_demo.rs > $DEMO
   cargo run --offline -j 8 --example seed_demo -p $PKG >/dev/null 2>&1; o=$?
   if git apply $d/patch.diff 2>/dev/null; then
     cargo run --offline -j 8 --example seed_demo -p $PKG >/dev/null 2>&1; c=$?
